@@ -92,7 +92,7 @@ TNext ==
   \/ Match("EnterTry", EnterTry) \/ Match("Find", Find) \/ Match("Analyse", Analyse)
   \/ Match("ExtensionHook", ExtensionHook) \/ Match("ResolveAliases", ResolveAliases) \/ Match("Return", Return)
   \/ Match("WorktreeRemove", WorktreeRemove) \/ Match("Prune", Prune) \/ Match("BranchDelete", BranchDelete)
-  \/ Match("RmTmp", RmTmp)
+  \/ Match("RmTmp", RmTmp) \/ Match("LoadWT", LoadWT)
   \/ TEndLoad \/ TDiff
   \/ (i < NEv /\ Ev.ev = "Interrupt" /\ Match("Interrupt", InterruptAt(Ev.at)))
   \/ Finish
